@@ -34,8 +34,12 @@ structure FwdSim where
   -- monitors on the real trace
   upRx : List Frame := []
   downTx : List Frame := []
+  /-- ids of the port batches completely delivered upstream / completely put on the wire downstream, and the
+  batch being assembled (a data frame or a new `first` frame discards it, as the receiver does) -/
   upIds : List Nat := []
   downIds : List Nat := []
+  upCur : Option (List Nat) := none
+  downCur : Option (List Nat) := none
   /-- first close notification for the destination port delivered to the forwarder: (graceful, line) -/
   closeRx : Option (Bool × Nat) := none
   /-- line at which the forwarding endpoint put `ReceiveClose` for the source port on the wire -/
@@ -63,9 +67,17 @@ def FwdSim.exactOk (f : FwdSim) : Bool := bytesPrefix (parse none f.downTx) (par
 def FwdSim.allRelayed (f : FwdSim) : Bool := parse none f.downTx == parse none f.upRx
 
 /-- the forwarder is between two messages as far as the real frames tell: nothing partial upstream, everything
-complete relayed, every received port batch sent on -/
+complete relayed, no
+partial transmission open downstream (a chunk may be waiting for credits), every received port batch sent on -/
 def FwdSim.looksIdle (f : FwdSim) : Bool :=
-  f.allRelayed && (parseSt none f.upRx).isNone && f.downIds == f.upIds
+  f.allRelayed && (parseSt none f.upRx).isNone && (parseSt none f.downTx).isNone && f.downIds == f.upIds
+
+/-- reassembly of port batches: (batch being assembled, completed ids) after a PortData frame -/
+def idsStep (cur : Option (List Nat)) (done : List Nat) (ids : List Nat) (first last : Bool) :
+    Option (List Nat) × List Nat :=
+  match (if first then some ids else cur.map (· ++ ids)) with
+  | none => (none, done)
+  | some b => if last then (none, done ++ b) else (some b, done)
 
 def showMsgs (ms : List Bytes) : String := "[" ++ ",".intercalate (ms.map toHex) ++ "]"
 
